@@ -87,3 +87,11 @@ Theorem C07_emphasis_api : forall n o s s1 c pre body post,
   Ok ($"<p>" ++ (escape (c :: pre) ++ $"<em>" ++ escape body ++ $"</em>" ++ escape post) ++ $"</p>", s1).
 Proof. exact emphasis_api. Qed.
 Print Assumptions C07_emphasis_api.
+
+Example C07_ex_hypotheses : RegexAnalysis.over plain_alphabet $"A " /\ body_ok $"very" /\ RegexAnalysis.over plain_alphabet $" plain word." .
+Proof.
+  assert (O : forall t, forallb (fun x => existsb (N.eqb x) plain_alphabet) t = true -> RegexAnalysis.over plain_alphabet t).
+  { intros t H x Hx. rewrite forallb_forall in H. apply H in Hx. apply existsb_exists in Hx as (y & Hy & E). apply N.eqb_eq in E. subst. exact Hy. }
+  split; [apply O; vm_compute; reflexivity|]. split; [|apply O; vm_compute; reflexivity].
+  split; [apply O; vm_compute; reflexivity|]. eexists _, _. split; [reflexivity|]. split; reflexivity.
+Qed.
